@@ -22,7 +22,7 @@ ASSUMED = [
     {"what": "opaque external types", "keys": ["pub struct Opaque"]},
     {"what": "HashMap<TId, CteSorting> is the shim CteMap with a ghost Map view and the std contracts of get / remove / insert; Vec::clone_from, Vec::clear, "
              "`v.drain(..).collect()` (= the whole content, v left empty) and Vec<ColumnSort<CId>>::clone have their std meaning",
-     "keys": ["struct CteMap", "fn view", "fn get", "fn remove", "fn insert", "fn vec_clone_from", "fn vec_drain_all", "fn clone_sorts", "fn vec_contains_cid"]},
+     "keys": ["struct CteMap", "fn view", "fn get", "fn remove", "fn insert", "fn vec_clone_from", "fn vec_drain_all", "fn clone_sorts", "fn vec_contains_cid", "fn emitted_sorts", "fn vec_extend_sorts"]},
     {"what": "CidRedirector::redirect_sorts(sorting, riid, anchor) is external: its result is the uninterpreted redirected(sorting, riid, anchor before the call); "
              "SortingInference::fold_sql_relation (the recursion into a sub-query) is external and unconstrained; SqlRelation and RIId are opaque; "
              "Context is the shim {anchor}",
@@ -76,6 +76,8 @@ impl CteMap {
 #[verifier::external_body] pub fn vec_drain_all<T>(v: &mut Vec<T>) -> (r: Vec<T>) ensures r@ == old(v)@, final(v)@.len() == 0, { unimplemented!() }
 #[verifier::external_body] pub fn clone_sorts(v: &Vec<ColumnSort<CId>>) -> (r: Vec<ColumnSort<CId>>) ensures r@ == v@, { unimplemented!() }
 #[verifier::external_body] pub fn vec_contains_cid(v: &Vec<CId>, c: &CId) -> (r: bool) ensures r == v@.contains(*c), { unimplemented!() }
+#[verifier::external_body] pub fn emitted_sorts(Ghost(emitted): Ghost<Seq<ColumnSort<CId>>>) -> (r: Vec<ColumnSort<CId>>) ensures r@ == emitted, { unimplemented!() }
+#[verifier::external_body] pub fn vec_extend_sorts(v: &mut Vec<ColumnSort<CId>>, w: &Vec<ColumnSort<CId>>) ensures final(v)@ == old(v)@ + w@, { unimplemented!() }
 pub type Anchor = OpaqueT;
 pub struct Context { pub anchor: Anchor }
 pub uninterp spec fn redirected(s: Seq<ColumnSort<CId>>, riid: RIId, anchor: Anchor) -> Seq<ColumnSort<CId>>;
@@ -193,47 +195,55 @@ def build(X):
     sc.drop_logging()
     sc.rewrite_re("R5", r"let select = result\.iter_mut\(\)\.find_map\(\|x\| x\.as_select_mut\(\)\)\.unwrap\(\);\n?", "", count=1,
                   why="the Select of the pipeline is a parameter of the slice (find_map over the emitted transforms)")
-    sc.rewrite_re("R3", r"for (\w+) in &sorting\b", r"for \1 in it: &sorting", count=1, why="iterator name for the loop invariant")
+    mv = re.search(r"for (\w+) in &(\w+)\b", sc.text)
+    if not mv:
+        raise ExtractionError("fold_sql_transforms: the loop over the sort columns of a CTE (`for column_sort in &..`) was not found")
+    V = mv.group(2)
+    sc.rewrite_re("R3", r"for (\w+) in &%s\b" % V, r"for \1 in it: &%s" % V, count=1, why="iterator name for the loop invariant")
+    sc.rewrite_re("R5", r"let mut (\w+) = result\s*\.iter\(\)\s*\.filter_map\(\|x\| x\.as_sort\(\)\)\s*\.flatten\(\)\s*\.cloned\(\)\s*\.collect_vec\(\);", r"let mut \1 = emitted_sorts(Ghost(emitted));", count=None,
+                  why="iterator chain over the emitted transforms: the columns of the Sort transforms of this pipeline, in order (ghost parameter `emitted`)")
+    sc.rewrite_re("R5", r"\b(\w+)\.extend\(sorting\.iter\(\)\.cloned\(\)\);", r"vec_extend_sorts(&mut \1, &sorting);", count=None, why="Vec::extend with the cloned elements")
     sc.rewrite_re("R5", r"\bselect\.contains\(&(\w+)\)", r"vec_contains_cid(select, &\1)", count=None, why="Vec<CId>::contains (derived PartialEq)")
-    sc.text = ("pub fn carry_sort_columns(select: &mut Vec<CId>, sorting: Vec<ColumnSort<CId>>)\n"
+    sc.text = ("pub fn carry_sort_columns(select: &mut Vec<CId>, sorting: Vec<ColumnSort<CId>>, Ghost(emitted): Ghost<Seq<ColumnSort<CId>>>)\n"
                "    ensures\n"
                "        // the columns selected before keep their places\n"
                "        final(select)@.len() >= old(select)@.len() && final(select)@.subrange(0, old(select)@.len() as int) == old(select)@, // @SC1\n"
-               "        // every sort column is selected\n"
-               "        forall|i: int| 0 <= i < sorting@.len() ==> final(select)@.contains(#[trigger] sorting@[i].column), // @SC2\n"
-               "        // what is appended are sort columns that were missing, each once\n"
-               "        forall|k: int| old(select)@.len() <= k < final(select)@.len() ==> ((exists|i: int| 0 <= i < sorting@.len() && sorting@[i].column == #[trigger] final(select)@[k])\n"
+               "        // every column an ORDER BY of this CTE mentions is selected: of the sorts emitted in it (in front of a Take / DISTINCT ON) and of the sorting handed to its consumers\n"
+               "        forall|i: int| 0 <= i < (emitted + sorting@).len() ==> final(select)@.contains(#[trigger] (emitted + sorting@)[i].column), // @SC2\n"
+               "        // what is appended are such columns that were missing, each once\n"
+               "        forall|k: int| old(select)@.len() <= k < final(select)@.len() ==> ((exists|i: int| 0 <= i < (emitted + sorting@).len() && (emitted + sorting@)[i].column == #[trigger] final(select)@[k])\n"
                "            && !final(select)@.subrange(0, k).contains(final(select)@[k])), // @SC3\n"
                "{\n    " + sc.text + "\n}\n")
     sc.loop_contract(1, """
         invariant
-            it.seq().len() == sorting@.len(),
-            forall|k: int| 0 <= k < it.seq().len() ==> *(#[trigger] it.seq()[k]) == sorting@[k],
-            it.index@ <= sorting@.len(),
+            it.seq().len() == %(V)s@.len(),
+            forall|k: int| 0 <= k < it.seq().len() ==> *(#[trigger] it.seq()[k]) == %(V)s@[k],
+            it.index@ <= %(V)s@.len(),
+            %(V)s@.len() <= (emitted + sorting@).len() && forall|i: int| 0 <= i < %(V)s@.len() ==> (#[trigger] %(V)s@[i]) == (emitted + sorting@)[(emitted + sorting@).len() - %(V)s@.len() + i],
             select@.len() >= old(select)@.len() && select@.subrange(0, old(select)@.len() as int) == old(select)@,
-            forall|i: int| 0 <= i < it.index@ ==> select@.contains(#[trigger] sorting@[i].column),
-            forall|k: int| old(select)@.len() <= k < select@.len() ==> ((exists|i: int| 0 <= i < sorting@.len() && sorting@[i].column == #[trigger] select@[k])
+            forall|i: int| 0 <= i < it.index@ ==> select@.contains(#[trigger] %(V)s@[i].column),
+            forall|k: int| old(select)@.len() <= k < select@.len() ==> ((exists|i: int| 0 <= i < %(V)s@.len() && %(V)s@[i].column == #[trigger] select@[k])
                 && !select@.subrange(0, k).contains(select@[k])),
-    """, fn_name="carry_sort_columns")
+    """ % {"V": V}, fn_name="carry_sort_columns")
     sc.insert_in_loop(1, "let ghost prev_sel = select@;", """
         proof {
-            let c = sorting@[it.index@ as int].column;
+            let c = %(V)s@[it.index@ as int].column;
             assert(select@.contains(c)) by {
                 if prev_sel.contains(c) { let j = choose|j: int| 0 <= j < prev_sel.len() && prev_sel[j] == c; assert(select@[j] == c); }
                 else { assert(select@[select@.len() - 1] == c); }
             }
-            assert forall|i: int| 0 <= i < it.index@ implies select@.contains(#[trigger] sorting@[i].column) by { // @SC2
-                let x = sorting@[i].column;
+            assert forall|i: int| 0 <= i < it.index@ implies select@.contains(#[trigger] %(V)s@[i].column) by { // @SC2
+                let x = %(V)s@[i].column;
                 let j = choose|j: int| 0 <= j < prev_sel.len() && prev_sel[j] == x;
                 assert(select@[j] == x);
             }
-            assert forall|k: int| old(select)@.len() <= k < select@.len() implies ((exists|i: int| 0 <= i < sorting@.len() && sorting@[i].column == #[trigger] select@[k]) // @SC3
+            assert forall|k: int| old(select)@.len() <= k < select@.len() implies ((exists|i: int| 0 <= i < %(V)s@.len() && %(V)s@[i].column == #[trigger] select@[k]) // @SC3
                     && !select@.subrange(0, k).contains(select@[k])) by {
                 if k < prev_sel.len() { assert(select@[k] == prev_sel[k]); assert(select@.subrange(0, k) =~= prev_sel.subrange(0, k)); }
                 else { assert(select@[k] == c); assert(select@.subrange(0, k) =~= prev_sel); }
             }
         }
-    """, "ghost snapshot of the Select at the top of the body; proof hints at its end: witnesses for `contains` after a push", fn_name="carry_sort_columns")
+    """ % {"V": V}, "ghost snapshot of the Select at the top of the body; proof hints at its end: witnesses for `contains` after a push", fn_name="carry_sort_columns")
     sc.rewrites.append({"rule": "slice", "what": "then-block of `if !self.main_relation { .. }` (tail of fold_sql_transforms) wrapped as fn carry_sort_columns(select, sorting)"})
     return (PRELUDE + model + "\n" + st.text + "\n" + re_.text + "\n" + rek.text + "\n" + SHIMS + f.text + "\n" + cs.text + "\n" + sc.text + "\n} // verus!\nfn main() {}\n")
 
@@ -253,6 +263,8 @@ CASES = [
     ("let s = (from a | sort {-x})\nfrom s\ntake 2\nselect {id}\n", [(r[0],) for r in _BYX[:2]]),
     # filter / select keep the order (SI7), take uses it (SI5)
     ("from a\nsort {-x}\nfilter y > 1\nselect {id, x}\ntake 2\nselect {id}\n", [(r[0],) for r in [q for q in _BYX if q[2] > 1][:2]]),
+    # a COMPUTED sort key of a take inside a CTE whose order is reset afterwards (group): the CTE must still select the key for its own ORDER BY (SC2)
+    ("from a\nderive {c = 0 - x}\nsort c\ntake 2\nselect {y}\ngroup y (aggregate {n = count this})\nsort y\n", sorted((y, 1) for (_i, _x, y) in _BYX[:2])),
     # an explicit sort replaces the order (SI2)
     ("from a\nsort {-x}\nsort {y, id}\ntake 3\nselect {id}\n", [(r[0],) for r in sorted(_A, key=lambda r: (r[2], r[0]))[:3]]),
 ]
